@@ -5,7 +5,7 @@ from ._spec_common import *
 
 PROPERTY = "C07"
 LEVEL = "proof"
-TARGETS = ['MutateAttr', 'SetAttr', 'DelAttr', 'WithAttr', 'ResetAttr', 'Reset', 'DeepCopy']
+TARGETS = ['MutateAttr', 'SetAttr', 'DelAttr', 'WithAttr', 'ResetAttr', 'Reset', 'DeepCopy', 'MutateValue', 'UpdateAttr', 'TransformAttr', 'Update', 'Transform']
 FAMILY_FILTER = ['c07.', 'c01.receiver', 'c01.identity', 'c04.unchanged'] + STRUCTURAL
 ASSUMPTIONS = A_COMMON + [
     "clauses of other properties on the same functions are discharged by those properties' own checks",
